@@ -136,6 +136,11 @@ LATER = {
     "C18": "Sweeps: every whole second to 8191 s, whole minutes to 2^31 s, a logarithmic grid with 16 mantissas per octave, every whole hour 1970-2036, delays in 125 ms steps.",
     "C19": "Every temporal-layer count vector in {1..4}^L for L <= 8 active layers; resolution fields are compared also when the allocation carries none.",
 }
+RACE_NOTE = " Supplementary (decides nothing alone): before the exploration a free-running pass under the Go race detector runs 8 goroutines, each with values / instances of its own, which must each get what a single goroutine gets (DESIGN.md 2.3b)."
+for _pid in CLAIMED:
+    if _pid != "C07":
+        _r, _t, _n, _k = CLAIMED[_pid]
+        CLAIMED[_pid] = (_r, _t, _n + RACE_NOTE, _k)
 for _pid, _txt in LATER.items():
     _r, _t, _n, _k = CLAIMED[_pid]
     CLAIMED[_pid] = (_r, _t + " Added later (DESIGN.md 5.22): " + _txt, _n, _k)
